@@ -21,9 +21,9 @@ def plan(tier):
                  (("reg", 6), 2, 1), (("near", 3), 3, 2), (("far", 3), None, 1)]
         Ls = [("reg", L) for L in (1, 2, 3, 4, 5)] + [("near", 3), ("far", 3)]
     else:
-        specs = [(("reg", 3), None, 3), (("reg", 4), None, 3), (("reg", 5), None, 2),
+        specs = [(("reg", 3), None, 3), (("reg", 4), None, 2), (("reg", 5), None, 2),
                  (("reg", 6), 3, 2), (("reg", 7), 2, 1), (("near", 3), None, 2),
-                 (("near", 4), 3, 2)]
+                 (("near", 4), 2, 2), (("far", 4), None, 2)]
         Ls = [("reg", L) for L in (1, 2, 3, 4, 5, 6, 7)] + [("near", 3), ("near", 4)]
     tasks, desc = [], []
     for spec, maxev, depth in specs:
